@@ -908,6 +908,16 @@ class BuiltinMixin:
     def m_str_strip(self, obj, args, kwargs, line):
         return StrV(s=obj.s.strip()) if obj.s is not None and not args else self.opaque_str("strip")
 
+    def m_str_lstrip(self, obj, args, kwargs, line):
+        if obj.s is not None and all(isinstance(a, StrV) and a.s is not None for a in args):
+            return StrV(s=obj.s.lstrip(*[a.s for a in args]))
+        return self.opaque_str("lstrip")
+
+    def m_str_rstrip(self, obj, args, kwargs, line):
+        if obj.s is not None and all(isinstance(a, StrV) and a.s is not None for a in args):
+            return StrV(s=obj.s.rstrip(*[a.s for a in args]))
+        return self.opaque_str("rstrip")
+
     def m_str_startswith(self, obj, args, kwargs, line):
         if obj.s is not None and isinstance(args[0], StrV) and args[0].s is not None:
             return BoolV(obj.s.startswith(args[0].s))
